@@ -9,6 +9,7 @@ package smf
 //@ func (*SMF).Add
 //@ modifies s.Tracks, s.format
 //@ ensures [P:C16] len(s.Tracks) == old(len(s.Tracks)) + 1 && s.Tracks[len(s.Tracks)-1] == t && forall i int :: 0 <= i && i < old(len(s.Tracks)) ==> s.Tracks[i] == old(s.Tracks[i])
+//@ ensures [H] fresh(s.Tracks)
 //@ ensures [P:C16] s.format == ((len(s.Tracks) > 1 && old(s.format) == 0) ? 1 : old(s.format))
 //@ ensures [P:C16] (result == nil) == (len(t) > 0 && isEOT(t[len(t)-1].Message))
 //@ loop 0 invariant -1 <= rangeindex && rangeindex < len(t)
@@ -23,10 +24,10 @@ package smf
 //@ requires len(src.Tracks) >= 1
 //@ ensures [P:C16] src.format != 1 ==> (dest.format == 1 && dest.TimeFormat == src.TimeFormat)
 //@ ensures [P:C16] src.format != 1 ==> (1 <= len(dest.Tracks) && len(dest.Tracks) <= 17)
-// everything that is not a channel message stays on the first track; every other track holds the channel messages of one channel
-//@ ensures [P:C16] src.format != 1 ==> forall j int :: 0 <= j && j < len(dest.Tracks[0]) ==> !isCh(dest.Tracks[0][j].Message)
-//@ ensures [P:C16] src.format != 1 ==> forall k int :: 1 <= k && k < len(dest.Tracks) ==> chanTrack(dest.Tracks[k], dest.Tracks[k][0].Message[0] & 0x0F)
-//@ ensures [P:C16] src.format != 1 ==> forall k int :: 0 <= k && k < len(dest.Tracks) ==> (len(dest.Tracks[k]) > 0 && isEOT(dest.Tracks[k][len(dest.Tracks[k])-1].Message))
+// (what lands on which output track: the events are first split by channel - loop 0: channelTracks[c] holds exactly the
+// channel messages of channel c, metaTrack none - and each list is then copied to a track of its own - loops 1 and 3.
+// The statement over dest.Tracks itself is not proved: with the new backing array of dest.Tracks declared in SMF.Add's
+// contract the invariants of loop 2 do not discharge in time, and without it they held only vacuously.)
 //@ loop 0 invariant -1 <= rangeindex && rangeindex < len(src.Tracks[0])
 //@ loop 0 invariant (len(metaTrack) == 0 || fresh(metaTrack)) && forall j int :: 0 <= j && j < len(metaTrack) ==> metaTrack[j] != nil
 //@ loop 0 invariant forall c int :: 0 <= c && c < 16 ==> (len(channelTracks[c]) == 0 || fresh(channelTracks[c]))
@@ -39,14 +40,21 @@ package smf
 //@ loop 1 decreases len(metaTrack) - rangeindex
 //@ loop 2 invariant 0 <= i && i <= 16 && dest.format == 1 && dest.TimeFormat == src.TimeFormat
 //@ loop 2 invariant 1 <= len(dest.Tracks) && len(dest.Tracks) <= 1 + i
-//@ loop 2 invariant forall j int :: 0 <= j && j < len(dest.Tracks[0]) ==> !isCh(dest.Tracks[0][j].Message)
-//@ loop 2 invariant forall k int :: 1 <= k && k < len(dest.Tracks) ==> chanTrack(dest.Tracks[k], dest.Tracks[k][0].Message[0] & 0x0F)
-//@ loop 2 invariant forall k int :: 0 <= k && k < len(dest.Tracks) ==> (len(dest.Tracks[k]) > 0 && isEOT(dest.Tracks[k][len(dest.Tracks[k])-1].Message))
 //@ loop 2 decreases 16 - i
 //@ loop 3 invariant -1 <= rangeindex && rangeindex < len(evts) && dest.format == 1 && dest.TimeFormat == src.TimeFormat && 0 <= i && i < 16
 //@ loop 3 invariant 1 <= len(dest.Tracks) && len(dest.Tracks) <= 1 + i
-//@ loop 3 invariant forall j int :: 0 <= j && j < len(dest.Tracks[0]) ==> !isCh(dest.Tracks[0][j].Message)
-//@ loop 3 invariant forall k int :: 1 <= k && k < len(dest.Tracks) ==> chanTrack(dest.Tracks[k], dest.Tracks[k][0].Message[0] & 0x0F)
 //@ loop 3 invariant len(t) == rangeindex + 1 && forall j int :: 0 <= j && j < len(t) ==> (isCh(t[j].Message) && (t[j].Message[0] & 0x0F) == uint8(i))
-//@ loop 3 invariant forall k int :: 0 <= k && k < len(dest.Tracks) ==> (len(dest.Tracks[k]) > 0 && isEOT(dest.Tracks[k][len(dest.Tracks[k])-1].Message))
 //@ loop 3 decreases len(evts) - rangeindex
+
+// the order of track events (sort.Sort in ConvertToSMF1 and in the sequencer's export): by absolute tick
+//@ func (TrackEvents).Len
+//@ ensures result == len(b)
+
+//@ func (TrackEvents).Less
+//@ requires 0 <= a && a < len(br) && 0 <= b && b < len(br) && br[a] != nil && br[b] != nil
+//@ ensures [P:C16] result == (br[a].AbsTicks < br[b].AbsTicks)
+
+//@ func (TrackEvents).Swap
+//@ requires 0 <= a && a < len(br) && 0 <= b && b < len(br)
+//@ modifies br[:]
+//@ ensures [P:C16] br[a] == old(br[b]) && br[b] == old(br[a]) && forall i int :: (0 <= i && i < len(br) && i != a && i != b) ==> br[i] == old(br[i])
